@@ -51,7 +51,22 @@ def programs():
     key, u = jax.random.split(key)
     return (v * jnp.prod(b['x']) + jax.random.normal(u, v.shape), (c * 2 + jnp.sum(b['x'] > 0).astype(jnp.int32), key))
 
-  return {'A': (a_init, a_step, a_final, True), 'B': (b_init, b_step, None, False)}
+  # PC: a Python-style accumulator: the state starts as an int32 zero and is promoted to float32 by the first step (the
+  #     sequential fold simply rebinds the name); final casts, so that clients without batches have the same output dtype.
+  def c_init(shared, ci):
+    return {'tot': jnp.zeros((), jnp.int32), 'steps': jnp.zeros((), jnp.int32)}
+
+  def c_step(st, b):
+    return {'tot': st['tot'] + jnp.sum(jnp.where(b['__mask__'], b['x'], 0.0)) * 0.375, 'steps': st['steps'] + 1}
+
+  def c_final(shared, st):
+    return {'tot': st['tot'].astype(jnp.float32) + shared['w'][0], 'steps': st['steps']}
+
+  return {'A': (a_init, a_step, a_final, True), 'B': (b_init, b_step, None, False), 'C': (c_init, c_step, c_final, False)}
+
+
+# client ids are arbitrary hashables: ints, bytes, str (also empty), tuples and None all occur
+CLIENT_IDS = [0, b'c1', None, ('t', 3), '', b'']
 
 
 def make_inputs(profile, seed):
@@ -65,7 +80,7 @@ def make_inputs(profile, seed):
     batches = [{'x': jnp.asarray([1.0 + i, 2.0 + j + 0.5 * (seed % 2)]),
                 '__mask__': jnp.asarray([True, k < 2])} for j in range(k)]
     ci = {'scale': jnp.asarray(1.0 + i), 'key': jax.random.PRNGKey(10 + i)}
-    clients.append((b'c%d' % i if i % 2 else i, batches, ci))
+    clients.append((CLIENT_IDS[i], batches, ci))
   return shared, clients
 
 
@@ -181,6 +196,14 @@ def fold(case):
         require(bool(np.allclose(np.asarray(a, np.float64), np.asarray(b, np.float64), rtol=1e-5, atol=1e-6)),
                 'client %r: a second call with an updated shared input returned results for a stale shared input' % cid,
                 np.asarray(b).tolist(), np.asarray(a).tolist(), case=nc)
+    # the results of the FIRST call are still what they were (looked at again after the second call on the same object)
+    for g in got:
+      for a, b in zip(leaves(g[1]), leaves(expect[g[0]][0])):
+        if isinstance(a, jax.Array):
+          require(not a.is_deleted(), 'client %r: an output of the first call was invalidated by the second call' % (g[0],), case=nc)
+        require(bool(np.allclose(np.asarray(a, np.float64), np.asarray(b, np.float64), rtol=1e-5, atol=1e-6)),
+                'client %r: the output of the first call changed after a second call' % (g[0],), np.asarray(b).tolist(),
+                np.asarray(a).tolist(), case=nc)
     outs.add(core.digest([[repr(c), [np.asarray(x, np.float64).round(4).tolist() for x in leaves(expect[c][0])]] for c in expect]))
     evals += 1
   return {'evals': evals, 'outcomes': sorted(outs), 'nontrivial': len(set(profile)) > 1 or 0 in profile,
@@ -355,7 +378,7 @@ def plan(ctx):
   n_max = 4 if th else 3
   devs = [1, 2, 3, 4, 8] if th else [1, 3]
   backends = ['jit', 'debug'] + ['pmap%d' % d for d in devs]
-  ctx.rule = ('fold: 2 client programs x every batch-count profile in {0,1,2}^n, n<=%d x backends %s (list and one-pass '
+  ctx.rule = ('fold: 3 client programs (one with a dtype-promoting state; client ids int/bytes/None/tuple/str) x every batch-count profile in {0,1,2}^n, n<=%d x backends %s (list and one-pass '
               'iterator inputs); threads: every pair of backend-selection programs (<=2 nodes vs <=1 node; thorough <=2 '
               'vs <=2) under op-level schedules (all interleavings for 1-node pairs, else <=2 (thorough 3) preemptions), 3-thread triples, and line-level schedules of for_each_client.py '
               'with <=%d preemptions; distinct = (program, profile, backend) / (thread programs, schedule); non-trivial = '
@@ -366,7 +389,7 @@ def plan(ctx):
   fc = []
   for n in range(0, n_max + 1):
     for profile in itertools.product((0, 1, 2), repeat=n):
-      for prog in ('A', 'B'):
+      for prog in ('A', 'B', 'C'):
         fc.append({'prog': prog, 'profile': list(profile), 'backends': backends, 'seed': ctx.seed,
                    'iter': sum(profile) % 2 == 1})
   # group by program so that each worker compiles few backends: chunk = contiguous cases
